@@ -137,4 +137,680 @@ Proof. cbn [F zp_ops f_tm]. rewrite fz_tm_mod by exact ppos. apply eqm_mod. Qed.
 Lemma tm_0 x : f_tm F x 0 = 0.
 Proof. cbn [F zp_ops f_tm]. rewrite fz_tm_mod by exact ppos. rewrite Z.mul_0_r. apply Z.mod_0_l; lia. Qed.
 
+
+Lemma inv_nzm x : 0 < x < p -> ~ zm p (inv_of x).
+Proof.
+  intros Hx Hz. destruct (inv_of_spec x Hx) as [H _].
+  assert (H1 : zm p 1).
+  { replace 1 with (inv_of x * x - (inv_of x * x - 1)) by ring. apply zm_sub; try assumption.
+    apply zm_mul_l; assumption. }
+  apply (nzm_1 p Hp). exact H1.
+Qed.
+Lemma eqm_eq x y : x = y -> eqm x y.
+Proof. intros ->. apply eqm_refl. Qed.
+Lemma eqm_zm_r a b : eqm a b -> zm p a -> zm p b.
+Proof. intros H. apply eqm_zm. apply eqm_sym. exact H. Qed.
+
+(* ------------------------------------------------------------------ the annotation of a boundary *)
+Fixpoint bsum (ann : list vec) (dim : nat) (fs : list nat) (i j : nat) : Z :=
+  match fs with
+  | [] => 0
+  | f :: fs' => sign_of dim i * vget (nth f ann []) j + bsum ann dim fs' (S i) j
+  end.
+
+Lemma bann_eqm (ann : list vec) dim fs : forall i acc j,
+  eqm (vget (bann F ann dim fs i acc) j) (vget acc j + bsum ann dim fs i j).
+Proof.
+  induction fs as [|f fs IH]; intros i acc j; cbn [bann bsum].
+  - apply eqm_eq. ring.
+  - eapply eqm_trans; [apply IH|].
+    rewrite vget_vzip by apply pte_00.
+    eapply eqm_trans; [apply eqm_add; [apply pte_eqm|apply eqm_refl]|]. apply eqm_eq. ring.
+Qed.
+
+Lemma bann_range (ann : list vec) dim fs : forall i acc, (forall j, 0 <= vget acc j < p) ->
+  forall j, 0 <= vget (bann F ann dim fs i acc) j < p.
+Proof.
+  induction fs as [|f fs IH]; intros i acc H j; cbn [bann].
+  - apply H.
+  - apply IH. intros j'. rewrite vget_vzip by apply pte_00. apply pte_range.
+Qed.
+
+Lemma bann_support (ann : list vec) dim fs : forall i acc j, vget (bann F ann dim fs i acc) j <> 0 ->
+  vget acc j <> 0 \/ exists f, In f fs /\ vget (nth f ann []) j <> 0.
+Proof.
+  induction fs as [|f fs IH]; intros i acc j H; cbn [bann] in H.
+  - left. exact H.
+  - destruct (IH _ _ _ H) as [H1|[f' [Hin Hf']]].
+    + rewrite vget_vzip in H1 by apply pte_00.
+      destruct (Z.eq_dec (vget acc j) 0) as [E1|E1]; [|left; exact E1].
+      destruct (Z.eq_dec (vget (nth f ann []) j) 0) as [E2|E2].
+      * rewrite E1, E2, pte_00 in H1. contradiction.
+      * right. exists f. split; [left; reflexivity|exact E2].
+    + right. exists f'. split; [right; exact Hin|exact Hf'].
+Qed.
+
+Lemma bsum_ext (ann1 ann2 : list vec) dim fs : forall i j, (forall f, In f fs -> nth f ann1 [] = nth f ann2 []) ->
+  bsum ann1 dim fs i j = bsum ann2 dim fs i j.
+Proof.
+  induction fs as [|f fs IH]; intros i j H; cbn [bsum]; [reflexivity|].
+  rewrite (H f) by (left; reflexivity). rewrite IH; [reflexivity|]. intros f' Hf'. apply H. right. exact Hf'.
+Qed.
+
+Lemma bsum_zero (ann : list vec) dim fs : forall i j, (forall f, In f fs -> vget (nth f ann []) j = 0) -> bsum ann dim fs i j = 0.
+Proof.
+  induction fs as [|f fs IH]; intros i j H; cbn [bsum]; [reflexivity|].
+  rewrite (H f) by (left; reflexivity). rewrite IH; [ring|]. intros f' Hf'. apply H. right. exact Hf'.
+Qed.
+
+(* ------------------------------------------------------------------ the column update of destroy_cocycle *)
+Definition upd (a : vec) (dk : nat) (inv_x : Z) (c : vec) : vec :=
+  let w := f_tm F inv_x (vget c dk) in if w =? 0 then c else vzip (fun x y => f_pte F x y w) c a.
+
+Lemma upd_nil a dk inv_x : upd a dk inv_x [] = [].
+Proof. unfold upd. rewrite vget_nil, tm_0. reflexivity. Qed.
+
+Lemma nth_map_upd a dk inv_x (ann : list vec) f : nth f (map (upd a dk inv_x) ann) [] = upd a dk inv_x (nth f ann []).
+Proof. rewrite <- (upd_nil a dk inv_x) at 1. apply map_nth. Qed.
+
+Lemma upd_eqm a dk inv_x c j : eqm (vget (upd a dk inv_x c) j) (vget c j + (- inv_x * vget c dk) * vget a j).
+Proof.
+  unfold upd. pose proof (tm_eqm inv_x (vget c dk)) as Hw.
+  destruct (f_tm F inv_x (vget c dk) =? 0) eqn:E.
+  - apply Z.eqb_eq in E. rewrite E in Hw. apply eqm_sym.
+    unfold eqm. replace (vget c j + - inv_x * vget c dk * vget a j - vget c j) with (vget a j * (- inv_x * vget c dk)) by ring.
+    apply zm_mul_r; [exact Hp|]. apply eqm_sym in Hw. unfold eqm in Hw. rewrite Z.sub_0_r in Hw. exact Hw.
+  - rewrite vget_vzip by apply pte_00. eapply eqm_trans; [apply pte_eqm|].
+    apply eqm_add; [apply eqm_refl|]. apply eqm_mul; [exact Hw|apply eqm_refl].
+Qed.
+
+Lemma upd_range a dk inv_x c : (forall j, 0 <= vget c j < p) -> forall j, 0 <= vget (upd a dk inv_x c) j < p.
+Proof.
+  intros H j. unfold upd. destruct (f_tm F inv_x (vget c dk) =? 0); [apply H|].
+  rewrite vget_vzip by apply pte_00. apply pte_range.
+Qed.
+
+Lemma upd_support a dk inv_x c j : vget (upd a dk inv_x c) j <> 0 ->
+  vget c j <> 0 \/ (vget c dk <> 0 /\ vget a j <> 0).
+Proof.
+  unfold upd. destruct (f_tm F inv_x (vget c dk) =? 0) eqn:E; intros H; [left; exact H|].
+  rewrite vget_vzip in H by apply pte_00.
+  destruct (Z.eq_dec (vget c j) 0) as [E1|E1]; [|left; exact E1]. right.
+  split.
+  - intro E0. rewrite E0, tm_0 in E. discriminate.
+  - intro E2. rewrite E1, E2, pte_00 in H. contradiction.
+Qed.
+
+Lemma upd_kill a dk x c : 0 < x < p -> vget a dk = x -> 0 <= vget c dk < p ->
+  vget (upd a dk (inv_of x) c) dk = 0.
+Proof.
+  intros Hx Ha Hc. destruct (inv_of_spec x Hx) as [Hinv _].
+  assert (Hr : 0 <= vget (upd a dk (inv_of x) c) dk < p) by (unfold upd; destruct (_ =? 0); [exact Hc|rewrite vget_vzip by apply pte_00; apply pte_range]).
+  apply eqm_0_small; [|exact Hr].
+  eapply eqm_trans; [apply upd_eqm|]. rewrite Ha.
+  unfold eqm. replace (vget c dk + - inv_of x * vget c dk * x - 0) with ((- vget c dk) * (inv_of x * x - 1)) by ring.
+  apply zm_mul_r; assumption.
+Qed.
+
+Lemma bsum_upd a dk inv_x (ann : list vec) dim fs : forall i j,
+  eqm (bsum (map (upd a dk inv_x) ann) dim fs i j)
+      (bsum ann dim fs i j + (- inv_x * bsum ann dim fs i dk) * vget a j).
+Proof.
+  induction fs as [|f fs IH]; intros i j; cbn [bsum].
+  - apply eqm_eq. ring.
+  - rewrite nth_map_upd.
+    eapply eqm_trans; [apply eqm_add; [apply eqm_mul_l; apply upd_eqm|apply IH]|].
+    apply eqm_eq. ring.
+Qed.
+
+
+(* ------------------------------------------------------------------ list helpers *)
+Lemma nth_snoc {A} (l : list A) (x d : A) t :
+  nth t (l ++ [x]) d = if (t <? length l)%nat then nth t l d else if (t =? length l)%nat then x else d.
+Proof.
+  destruct (Nat.ltb_spec t (length l)) as [H|H].
+  - apply app_nth1. exact H.
+  - rewrite app_nth2 by lia. destruct (Nat.eqb_spec t (length l)) as [->|Hne].
+    + rewrite Nat.sub_diag. reflexivity.
+    + destruct (t - length l)%nat as [|[|k]] eqn:E; try lia; reflexivity.
+Qed.
+Lemma nth_snoc_nil (l : list vec) t : nth t (l ++ [[]]) [] = nth t l [].
+Proof.
+  rewrite nth_snoc. destruct (Nat.ltb_spec t (length l)) as [H|H]; [reflexivity|].
+  rewrite (nth_overflow l) by lia. destruct (t =? length l)%nat; reflexivity.
+Qed.
+Lemma NoDup_snoc {A} (l : list A) x : NoDup l -> ~ In x l -> NoDup (l ++ [x]).
+Proof.
+  induction l as [|y l IH]; intros Hn Hx; cbn [app].
+  - constructor; [intros []|constructor].
+  - inversion Hn; subst. constructor.
+    + intro Hin. apply in_app_or in Hin. destruct Hin as [Hin|[->|[]]]; [contradiction|]. apply Hx. left. reflexivity.
+    + apply IH; [assumption|]. intro Hin. apply Hx. right. exact Hin.
+Qed.
+
+(* ------------------------------------------------------------------ the filtered complex *)
+Variable cells : list cell.
+Variables dim_max m : Z.
+Definition cell_at (k : nat) : cell := nth k cells (mkcell 0 [] 0).
+(* faces come earlier and have one dimension less; an edge has two faces *)
+Definition valid : Prop := forall k, (k < length cells)%nat ->
+  (forall f, In f (c_faces (cell_at k)) -> (f < k)%nat /\ S (dim_of cells f) = c_dim (cell_at k)) /\
+  (c_dim (cell_at k) = 1%nat -> length (c_faces (cell_at k)) = 2%nat).
+Hypothesis Hvalid : valid.
+
+Definition newcell_ok (ann : list vec) (n : nat) : Prop :=
+  forall j, zm p (bsum ann (dim_of cells n) (c_faces (cell_at n)) 0 j).
+
+(* ------------------------------------------------------------------ invariant, annotation part *)
+Record InvA (ann : list vec) (rows : list (nat * Z)) (n : nat) : Prop := {
+  A_len : length ann = n;
+  A_rows : forall k, In k (map fst rows) -> (k < n)%nat /\ (1 <= dim_of cells k)%nat;
+  A_nd : NoDup (map fst rows);
+  A_ch : forall r, In r rows -> snd r = p;
+  A_range : forall t j, 0 <= vget (nth t ann []) j < p;
+  A_supp : forall t j, vget (nth t ann []) j <> 0 -> In j (map fst rows) /\ dim_of cells j = dim_of cells t;
+  A_coc : forall t j, (t < n)%nat -> zm p (bsum ann (dim_of cells t) (c_faces (cell_at t)) 0 j) }.
+
+Lemma A_snoc_nil ann rows n : InvA ann rows n -> newcell_ok ann n -> InvA (ann ++ [[]]) rows (S n).
+Proof.
+  intros [L R N C G S K] Hnew. constructor.
+  - rewrite app_length. cbn. lia.
+  - intros k Hk. destruct (R k Hk). split; lia.
+  - exact N.
+  - exact C.
+  - intros t j. rewrite nth_snoc_nil. apply G.
+  - intros t j. rewrite nth_snoc_nil. apply S.
+  - intros t j Ht. rewrite (bsum_ext (ann ++ [[]]) ann) by (intros; apply nth_snoc_nil).
+    destruct (Nat.eq_dec t n) as [->|Hne]; [apply Hnew|apply K; lia].
+Qed.
+
+Lemma faces_lt n f : (n < length cells)%nat -> In f (c_faces (cell_at n)) -> (f < n)%nat /\ S (dim_of cells f) = dim_of cells n.
+Proof. intros Hn Hf. destruct (Hvalid n Hn) as [H _]. apply H. exact Hf. Qed.
+
+Lemma A_snoc_unit ann rows n : (n < length cells)%nat -> InvA ann rows n -> newcell_ok ann n -> (1 <= dim_of cells n)%nat ->
+  InvA (ann ++ [unit_vec n 1]) (rows ++ [(n, p)]) (S n).
+Proof.
+  intros Hn [L R N C G S K] Hnew Hdim.
+  assert (Hext : forall t, (t <= n)%nat -> forall f, In f (c_faces (cell_at t)) -> nth f (ann ++ [unit_vec n 1]) [] = nth f ann []).
+  { intros t Ht f Hf. destruct (faces_lt t f ltac:(lia) Hf) as [Hlt _]. apply app_nth1. lia. }
+  constructor.
+  - rewrite app_length. cbn. lia.
+  - intros k Hk. rewrite map_app in Hk. apply in_app_or in Hk. destruct Hk as [Hk|[<-|[]]].
+    + destruct (R k Hk). split; lia.
+    + cbn. split; [lia|exact Hdim].
+  - rewrite map_app. cbn [map fst]. apply NoDup_snoc; [exact N|]. intro Hin. destruct (R n Hin). lia.
+  - intros r Hr. apply in_app_or in Hr. destruct Hr as [Hr|[<-|[]]]; [apply C; exact Hr|reflexivity].
+  - intros t j. rewrite nth_snoc, L.
+    destruct (t <? n)%nat; [apply G|]. destruct (t =? n)%nat; [|rewrite vget_nil; lia].
+    rewrite vget_unit. destruct (j =? n)%nat; lia.
+  - intros t j. rewrite nth_snoc, L. rewrite map_app. cbn [map fst].
+    destruct (Nat.ltb_spec t n) as [Ht|Ht].
+    + intros H. destruct (S t j H). split; [apply in_or_app; left; assumption|assumption].
+    + destruct (Nat.eqb_spec t n) as [->|Hne]; [|rewrite vget_nil; intros H; contradiction].
+      rewrite vget_unit. destruct (Nat.eqb_spec j n) as [->|Hj]; [|intros H; contradiction].
+      intros _. split; [apply in_or_app; right; left; reflexivity|reflexivity].
+  - intros t j Ht. rewrite (bsum_ext (ann ++ [unit_vec n 1]) ann) by (apply Hext; lia).
+    destruct (Nat.eq_dec t n) as [->|Hne]; [apply Hnew|apply K; lia].
+Qed.
+
+(* a cell all of whose faces have a null annotation at j (vertices, edges) *)
+Lemma newcell_ok_low ann rows n : (n < length cells)%nat -> InvA ann rows n -> (dim_of cells n <= 1)%nat -> newcell_ok ann n.
+Proof.
+  intros Hn IA Hd j. rewrite bsum_zero; [apply zm_0; exact Hp|].
+  intros f Hf. destruct (faces_lt n f Hn Hf) as [_ Hdf].
+  destruct (Z.eq_dec (vget (nth f ann []) j) 0) as [E|E]; [exact E|].
+  destruct (A_supp _ _ _ IA f j E) as [Hin Hdj]. destruct (A_rows _ _ _ IA j Hin). lia.
+Qed.
+
+(* removal of the row of key k when all rows carry the characteristic p *)
+Definition rows_without (k : nat) (charac : Z) (rows : list (nat * Z)) : list (nat * Z) :=
+  concat (map (fun r => if (fst r =? k)%nat then (if snd r =? charac then [] else [(fst r, snd r / charac)]) else [r]) rows).
+Lemma rows_without_spec k rows : (forall r, In r rows -> snd r = p) ->
+  (forall r, In r (rows_without k p rows) <-> In r rows /\ fst r <> k).
+Proof.
+  induction rows as [|r0 rows IH]; intros Hc r; unfold rows_without; cbn [map concat].
+  - split; [intros []|intros [[] _]].
+  - fold (rows_without k p rows). rewrite in_app_iff. rewrite IH by (intros; apply Hc; right; assumption).
+    destruct (Nat.eqb_spec (fst r0) k) as [E|E].
+    + rewrite (Hc r0) by (left; reflexivity). rewrite Z.eqb_refl. cbn [In].
+      split; [intros [[]|[H1 H2]]; split; [right|]; assumption|].
+      intros [[->|H1] H2]; [contradiction|]. right. split; assumption.
+    + cbn [In]. split.
+      * intros [[->|[]]|[H1 H2]]; split; try assumption; [left; reflexivity|right; assumption].
+      * intros [[->|H1] H2]; [left; left; reflexivity|right; split; assumption].
+Qed.
+Lemma rows_without_nd k rows : (forall r, In r rows -> snd r = p) -> NoDup (map fst rows) -> NoDup (map fst (rows_without k p rows)).
+Proof.
+  induction rows as [|r0 rows IH]; intros Hc Hn; unfold rows_without; cbn [map concat].
+  - constructor.
+  - fold (rows_without k p rows). cbn [map] in Hn. inversion Hn; subst.
+    assert (IHn := IH (fun r Hr => Hc r (or_intror Hr)) H2).
+    destruct (Nat.eqb_spec (fst r0) k) as [E|E].
+    + rewrite (Hc r0) by (left; reflexivity). rewrite Z.eqb_refl. cbn [app]. exact IHn.
+    + cbn [app map]. constructor; [|exact IHn]. intro Hin. apply in_map_iff in Hin. destruct Hin as [r [Hr1 Hr2]].
+      apply rows_without_spec in Hr2; [|intros; apply Hc; right; assumption]. destruct Hr2 as [Hr2 _].
+      apply H1. rewrite <- Hr1. apply in_map. exact Hr2.
+Qed.
+
+
+Lemma in_rows_without k j rows : (forall r, In r rows -> snd r = p) -> In j (map fst rows) -> j <> k -> In j (map fst (rows_without k p rows)).
+Proof.
+  intros Hc Hin Hne. apply in_map_iff in Hin. destruct Hin as [r [<- Hr]].
+  apply in_map. apply rows_without_spec; [exact Hc|]. split; assumption.
+Qed.
+Lemma in_rows_without_inv k j rows : (forall r, In r rows -> snd r = p) -> In j (map fst (rows_without k p rows)) -> In j (map fst rows) /\ j <> k.
+Proof.
+  intros Hc Hin. apply in_map_iff in Hin. destruct Hin as [r [<- Hr]].
+  apply rows_without_spec in Hr; [|exact Hc]. destruct Hr. split; [apply in_map; assumption|assumption].
+Qed.
+
+(* a destructor: the highest key k of the annotation a of its boundary is a live class of one dimension less, and after
+   the column updates no annotation has a coefficient at k any more *)
+Lemma A_destroy ann rows n a k x tl : (n < length cells)%nat -> InvA ann rows n ->
+  a = bann F ann (dim_of cells n) (c_faces (cell_at n)) 0 [] -> a_ds_rev a 0 = (k, x) :: tl ->
+  InvA (map (upd a k (inv_of x)) ann ++ [[]]) (rows_without k p rows) (S n) /\
+  In k (map fst rows) /\ S (dim_of cells k) = dim_of cells n /\ 0 < x < p.
+Proof.
+  intros Hn IA Ha Hds.
+  destruct (a_ds_rev_head a 0 k x tl Hds) as (_ & Hx & Hx0 & _). rewrite Nat.sub_0_r in Hx. fold (vget a k) in Hx.
+  assert (Hra : forall j, 0 <= vget a j < p).
+  { rewrite Ha. apply bann_range. intros j. rewrite vget_nil. lia. }
+  assert (Hxr : 0 < x < p) by (specialize (Hra k); lia).
+  assert (Hsa : forall j, vget a j <> 0 -> In j (map fst rows) /\ S (dim_of cells j) = dim_of cells n).
+  { intros j Hj. rewrite Ha in Hj. apply bann_support in Hj. destruct Hj as [Hj|[f [Hf Hj]]]; [rewrite vget_nil in Hj; contradiction|].
+    destruct (A_supp _ _ _ IA f j Hj) as [Hin Hd]. destruct (faces_lt n f Hn Hf) as [_ Hdf]. split; [exact Hin|lia]. }
+  assert (Hk : In k (map fst rows) /\ S (dim_of cells k) = dim_of cells n) by (apply Hsa; lia).
+  assert (HB : forall j, eqm (vget a j) (bsum ann (dim_of cells n) (c_faces (cell_at n)) 0 j)).
+  { intros j. rewrite Ha. eapply eqm_trans; [apply bann_eqm|]. rewrite vget_nil. apply eqm_eq. ring. }
+  destruct (inv_of_spec x Hxr) as [Hinv _].
+  pose proof (A_ch _ _ _ IA) as Hch.
+  split; [|split; [apply Hk|split; [apply Hk|exact Hxr]]].
+  apply A_snoc_nil.
+  - constructor.
+    + rewrite map_length. apply (A_len _ _ _ IA).
+    + intros k' Hk'. apply in_rows_without_inv in Hk'; [|exact Hch]. apply (A_rows _ _ _ IA). apply Hk'.
+    + apply rows_without_nd; [exact Hch|apply (A_nd _ _ _ IA)].
+    + intros r Hr. apply rows_without_spec in Hr; [|exact Hch]. apply Hch. apply Hr.
+    + intros t j. rewrite nth_map_upd. apply upd_range. apply (A_range _ _ _ IA).
+    + intros t j H. rewrite nth_map_upd in H.
+      assert (Hjk : j <> k).
+      { intros ->. apply H. apply upd_kill; [exact Hxr|symmetry; exact Hx|apply (A_range _ _ _ IA)]. }
+      apply upd_support in H. destruct H as [H|[H1 H2]].
+      * destruct (A_supp _ _ _ IA t j H) as [Hin Hd]. split; [apply in_rows_without; assumption|exact Hd].
+      * destruct (A_supp _ _ _ IA t k H1) as [_ Hdk]. destruct (Hsa j H2) as [Hin Hdj].
+        split; [apply in_rows_without; assumption|]. destruct Hk as [_ Hk]. lia.
+    + intros t j Ht. eapply eqm_zm; [apply bsum_upd|].
+      apply zm_add; [exact Hp|apply (A_coc _ _ _ IA); exact Ht|].
+      apply zm_mul_l; [exact Hp|]. apply zm_mul_r; [exact Hp|]. apply (A_coc _ _ _ IA). exact Ht.
+  - intros j. eapply eqm_zm; [apply bsum_upd|].
+    set (B := bsum ann (dim_of cells n) (c_faces (cell_at n)) 0) in *.
+    apply (eqm_zm _ (vget a j + (- inv_of x * x) * vget a j)).
+    + apply eqm_add; [apply eqm_sym; apply HB|].
+      apply eqm_mul; [|apply eqm_refl]. apply eqm_mul_l. apply eqm_sym. rewrite Hx. apply HB.
+    + replace (vget a j + - inv_of x * x * vget a j) with ((- vget a j) * (inv_of x * x - 1)) by ring.
+      apply zm_mul_r; assumption.
+Qed.
+
+
+(* ------------------------------------------------------------------ invariant, connected components *)
+Record InvH (comp : list (nat * nat)) (n : nat) : Prop := {
+  H_b : forall v c, In (v, c) comp -> (v < n)%nat /\ (c < n)%nat /\ dim_of cells c = 0%nat;
+  H_nd : NoDup (map fst comp);
+  H_tot : forall k, (k < n)%nat -> dim_of cells k = 0%nat -> exists c, lookup k comp = Some c }.
+
+Lemma lookup_in k l c : lookup k l = Some c -> In (k, c) l.
+Proof.
+  induction l as [|[a b] l IH]; cbn [lookup]; [discriminate|].
+  destruct (Nat.eqb_spec a k) as [->|Hne]; intros H; [inversion H; left; reflexivity|right; apply IH; exact H].
+Qed.
+Lemma lookup_snoc k l n : lookup k (l ++ [(n, n)]) =
+  match lookup k l with Some c => Some c | None => if (n =? k)%nat then Some n else None end.
+Proof.
+  induction l as [|[a b] l IH]; cbn [lookup app]; [reflexivity|].
+  destruct (a =? k)%nat; [reflexivity|exact IH].
+Qed.
+Lemma lookup_relabel k from to l : lookup k (relabel from to l) =
+  option_map (fun c => if (c =? from)%nat then to else c) (lookup k l).
+Proof.
+  induction l as [|[a b] l IH]; cbn [lookup relabel map snd fst]; [reflexivity|].
+  fold (relabel from to l). destruct (b =? from)%nat eqn:E; cbn [lookup fst snd]; destruct (a =? k)%nat; cbn [option_map]; try rewrite E; try reflexivity; exact IH.
+Qed.
+Lemma relabel_fst from to l : map fst (relabel from to l) = map fst l.
+Proof.
+  induction l as [|[a b] l IH]; cbn [relabel map fst snd]; [reflexivity|]. fold (relabel from to l).
+  rewrite IH. destruct (b =? from)%nat; reflexivity.
+Qed.
+Lemma relabel_in from to l v c : In (v, c) (relabel from to l) ->
+  (In (v, c) l /\ c <> from) \/ (c = to /\ In (v, from) l).
+Proof.
+  unfold relabel. intros H. apply in_map_iff in H. destruct H as [[v0 c0] [E H]]. cbn [fst snd] in E.
+  destruct (Nat.eqb_spec c0 from) as [E0|Hne]; inversion E; subst.
+  - right. split; [reflexivity|exact H].
+  - left. split; assumption.
+Qed.
+Lemma relabel_vals from to l k : In k (map snd (relabel from to l)) -> (In k (map snd l) /\ k <> from) \/ k = to.
+Proof.
+  intros H. apply in_map_iff in H. destruct H as [[v c] [E H]]. cbn [snd] in E. subst c.
+  apply relabel_in in H. destruct H as [[H1 H2]|[H1 _]]; [left|right; exact H1].
+  split; [|exact H2]. apply in_map_iff. exists (v, k). split; [reflexivity|exact H1].
+Qed.
+
+Lemma H_snoc comp n : dim_of cells n = 0%nat -> InvH comp n -> InvH (comp ++ [(n, n)]) (S n).
+Proof.
+  intros Hd [B N T]. constructor.
+  - intros v c H. apply in_app_or in H. destruct H as [H|[H|[]]].
+    + destruct (B v c H) as (? & ? & ?). repeat split; try lia; assumption.
+    + inversion H; subst. repeat split; try lia; assumption.
+  - rewrite map_app. cbn [map fst]. apply NoDup_snoc; [exact N|]. intro H. apply in_map_iff in H.
+    destruct H as [[v c] [E H]]. cbn [fst] in E. subst v. destruct (B n c H). lia.
+  - intros k Hk Hdk. rewrite lookup_snoc. destruct (lookup k comp) as [c|] eqn:E; [exists c; reflexivity|].
+    destruct (Nat.eq_dec k n) as [->|Hne].
+    + rewrite Nat.eqb_refl. exists n. reflexivity.
+    + destruct (T k ltac:(lia) Hdk) as [c Hc]. congruence.
+Qed.
+
+Lemma H_mono comp n : dim_of cells n <> 0%nat -> InvH comp n -> InvH comp (S n).
+Proof.
+  intros Hd [B N T]. constructor.
+  - intros v c H. destruct (B v c H) as (? & ? & ?). repeat split; try lia; assumption.
+  - exact N.
+  - intros k Hk Hdk. apply T; [|exact Hdk]. destruct (Nat.eq_dec k n) as [->|]; [contradiction|lia].
+Qed.
+
+Lemma H_relabel comp n from to : dim_of cells n <> 0%nat -> (to < n)%nat -> dim_of cells to = 0%nat ->
+  InvH comp n -> InvH (relabel from to comp) (S n).
+Proof.
+  intros Hd Hto Hdto IHH. destruct (H_mono comp n Hd IHH) as [B N T]. constructor.
+  - intros v c H. apply relabel_in in H. destruct H as [[H _]|[-> H]].
+    + apply B. exact H.
+    + destruct (B v from H) as (? & ? & ?). repeat split; try lia; assumption.
+  - rewrite relabel_fst. exact N.
+  - intros k Hk Hdk. rewrite lookup_relabel. destruct (T k Hk Hdk) as [c ->]. cbn [option_map]. eexists. reflexivity.
+Qed.
+
+Lemma coc_spec (s : st) n f : InvH (s_comp s) n -> (f < n)%nat -> dim_of cells f = 0%nat ->
+  In (f, coc s f) (s_comp s).
+Proof.
+  intros IHH Hf Hd. unfold coc. destruct (H_tot _ _ IHH f Hf Hd) as [c Hc]. rewrite Hc. apply lookup_in. exact Hc.
+Qed.
+
+(* ------------------------------------------------------------------ invariant, pairs *)
+Definition pair_keys (ps : list pair) : list nat :=
+  flat_map (fun x => p_birth x :: match p_death x with Some d => [d] | None => [] end) ps.
+
+Record InvP (ps : list pair) (rows : list (nat * Z)) (comp : list (nat * nat)) (n : nat) : Prop := {
+  P_fin : forall x, In x ps -> exists d, p_death x = Some d /\ (p_birth x < d)%nat /\ (d < n)%nat /\
+                                         dim_of cells d = S (dim_of cells (p_birth x)) /\ snd x = p;
+  P_nd : NoDup (pair_keys ps);
+  P_keys : forall k, In k (pair_keys ps) -> (k < n)%nat /\ ~ In k (map fst rows) /\ ~ In k (map snd comp) }.
+
+Lemma P_weaken ps rows comp rows' comp' n : InvP ps rows comp n ->
+  (forall k, In k (map fst rows') -> In k (map fst rows) \/ k = n) ->
+  (forall k, In k (map snd comp') -> In k (map snd comp) \/ k = n) ->
+  InvP ps rows' comp' (S n).
+Proof.
+  intros [Fi N K] Hr Hc. constructor.
+  - intros x Hx. destruct (Fi x Hx) as (d & A & B & C & D & E). exists d. repeat split; try assumption; lia.
+  - exact N.
+  - intros k Hk. destruct (K k Hk) as (A & B & C). split; [lia|]. split.
+    + intro H. destruct (Hr k H); [contradiction|lia].
+    + intro H. destruct (Hc k H); [contradiction|lia].
+Qed.
+
+Lemma P_add ps rows comp rows' comp' n b : InvP ps rows comp n ->
+  (forall k, In k (map fst rows') -> In k (map fst rows) \/ k = n) ->
+  (forall k, In k (map snd comp') -> In k (map snd comp) \/ k = n) ->
+  (b < n)%nat -> dim_of cells n = S (dim_of cells b) -> ~ In b (pair_keys ps) ->
+  ~ In b (map fst rows') -> ~ In b (map snd comp') -> ~ In n (map fst rows') -> ~ In n (map snd comp') ->
+  InvP (add_pair cells m b n p ps) rows' comp' (S n).
+Proof.
+  intros IPP Hr Hc Hb Hd Hnb Hbr Hbc Hnr Hnc. pose proof (P_weaken _ _ _ _ _ _ IPP Hr Hc) as W.
+  unfold add_pair. destruct (length_ok cells m b n); [|exact W].
+  destruct W as [Fi N K]. destruct IPP as [_ _ K0].
+  assert (Hkeys : pair_keys (@app (nat * option nat * Z) ps [(b, Some n, p)]) = (pair_keys ps ++ [b]) ++ [n]).
+  { unfold pair_keys. rewrite flat_map_app. cbn. rewrite <- app_assoc. reflexivity. }
+  constructor.
+  - intros x Hx. apply in_app_or in Hx. destruct Hx as [Hx|[<-|[]]]; [apply Fi; exact Hx|].
+    exists n. cbn. repeat split; try lia.
+  - rewrite Hkeys. apply NoDup_snoc; [apply NoDup_snoc; assumption|].
+    intro H. apply in_app_or in H. destruct H as [H|[H|[]]]; [destruct (K0 n H); lia|lia].
+  - intros k Hk. rewrite Hkeys in Hk. apply in_app_or in Hk. destruct Hk as [Hk|[<-|[]]].
+    + apply in_app_or in Hk. destruct Hk as [Hk|[<-|[]]]; [apply K; exact Hk|]. repeat split; try assumption; lia.
+    + repeat split; try assumption; lia.
+Qed.
+
+Record Inv (s : st) (n : nat) : Prop := {
+  IA : InvA (s_ann s) (s_rows s) n;
+  IH : InvH (s_comp s) n;
+  IP : InvP (s_pairs s) (s_rows s) (s_comp s) n }.
+
+
+(* ------------------------------------------------------------------ one step keeps the invariant *)
+Lemma kill_loop_one a n es s : kill_loop F cells m n a es 1 s = (s, 1).
+Proof. destruct es as [|[k x] es]; reflexivity. Qed.
+
+Lemma vals_in (comp : list (nat * nat)) v c : In (v, c) comp -> In c (map snd comp).
+Proof. intros H. apply in_map_iff. exists (v, c). split; [reflexivity|exact H]. Qed.
+
+Lemma not_n_in_vals comp n : InvH comp n -> ~ In n (map snd comp).
+Proof.
+  intros IHH H. apply in_map_iff in H. destruct H as [[v0 c0] [E H]]. cbn [snd] in E. subst c0.
+  destruct (H_b _ _ IHH v0 n H) as (_ & ? & _). lia.
+Qed.
+Lemma not_n_in_rows ann rows n : InvA ann rows n -> ~ In n (map fst rows).
+Proof. intros IAA H. destruct (A_rows _ _ _ IAA n H). lia. Qed.
+
+Lemma merge_inv s n dead alive : (n < length cells)%nat -> Inv s n -> dim_of cells n = 1%nat ->
+  In dead (map snd (s_comp s)) -> In alive (map snd (s_comp s)) -> dead <> alive ->
+  (dead < n)%nat -> (alive < n)%nat -> dim_of cells dead = 0%nat -> dim_of cells alive = 0%nat ->
+  Inv (mkst (s_ann s ++ [[]]) (s_rows s) (relabel dead alive (s_comp s)) (add_pair cells m dead n p (s_pairs s))) (S n).
+Proof.
+  intros Hn [IAs IHs IPs] Hd1 Hdv Hav Hne Hdn Han Hdd Had.
+  constructor; cbn [s_ann s_rows s_comp s_pairs].
+  - apply A_snoc_nil; [exact IAs|]. apply (newcell_ok_low _ (s_rows s)); [exact Hn|exact IAs|lia].
+  - apply H_relabel; try assumption. lia.
+  - apply (P_add _ (s_rows s) (s_comp s)); try assumption.
+    + intros k H; left; exact H.
+    + intros k H. apply relabel_vals in H. destruct H as [[H _]| ->]; left; assumption.
+    + lia.
+    + intro H. destruct (P_keys _ _ _ _ IPs dead H) as (_ & _ & Hc). apply Hc. exact Hdv.
+    + intro H. destruct (A_rows _ _ _ IAs dead H). lia.
+    + intro H. apply relabel_vals in H. destruct H as [[_ H]|H]; [apply H; reflexivity|contradiction].
+    + apply (not_n_in_rows _ _ _ IAs).
+    + intro H. apply relabel_vals in H. destruct H as [[H _]|H]; [apply (not_n_in_vals _ _ IHs H)|lia].
+Qed.
+
+Lemma create_inv s n : (n < length cells)%nat -> Inv s n -> (1 <= dim_of cells n)%nat -> newcell_ok (s_ann s) n ->
+  Inv (mkst (s_ann s ++ [new_col n (f_one F)]) (s_rows s ++ [(n, f_char F)]) (s_comp s) (s_pairs s)) (S n).
+Proof.
+  intros Hn [IAs IHs IPs] Hd Hnew. change (new_col n (f_one F)) with (unit_vec n 1). change (f_char F) with p.
+  constructor; cbn [s_ann s_rows s_comp s_pairs].
+  - apply A_snoc_unit; assumption.
+  - apply H_mono; [lia|exact IHs].
+  - apply (P_weaken _ _ _ _ _ _ IPs); [|intros k H; left; exact H].
+    intros k H. rewrite map_app in H. apply in_app_or in H. destruct H as [H|[<-|[]]]; [left; exact H|right; reflexivity].
+Qed.
+
+Lemma skip_inv s n : (n < length cells)%nat -> Inv s n -> (1 <= dim_of cells n)%nat -> newcell_ok (s_ann s) n ->
+  Inv (mkst (s_ann s ++ [[]]) (s_rows s) (s_comp s) (s_pairs s)) (S n).
+Proof.
+  intros Hn [IAs IHs IPs] Hd Hnew.
+  constructor; cbn [s_ann s_rows s_comp s_pairs].
+  - apply A_snoc_nil; assumption.
+  - apply H_mono; [lia|exact IHs].
+  - apply (P_weaken _ _ _ _ _ _ IPs); intros k H; left; exact H.
+Qed.
+
+Lemma step_inv s n : (n < length cells)%nat -> Inv s n -> Inv (step F cells dim_max m s (cell_at n)) (S n).
+Proof.
+  intros Hn HI. pose proof HI as [IAs IHs IPs]. pose proof (A_len _ _ _ IAs) as Hlen.
+  destruct (Hvalid n Hn) as [Hfaces Hedge].
+  assert (Hdn : dim_of cells n = c_dim (cell_at n)) by reflexivity.
+  unfold step. rewrite Hlen.
+  destruct (c_dim (cell_at n)) as [|[|d]] eqn:Ed.
+  - (* vertex *)
+    constructor; cbn [s_ann s_rows s_comp s_pairs].
+    + apply A_snoc_nil; [exact IAs|]. apply (newcell_ok_low _ (s_rows s)); [exact Hn|exact IAs|lia].
+    + apply H_snoc; assumption.
+    + apply (P_weaken _ _ _ _ _ _ IPs); [intros k H; left; exact H|].
+      intros k H. rewrite map_app in H. apply in_app_or in H. destruct H as [H|[<-|[]]]; [left; exact H|right; reflexivity].
+  - (* edge *)
+    specialize (Hedge eq_refl).
+    destruct (c_faces (cell_at n)) as [|v [|u [|]]] eqn:Efs; try discriminate Hedge.
+    cbn [nth].
+    destruct (Hfaces v (or_introl eq_refl)) as [Hv Hdv]. destruct (Hfaces u (or_intror (or_introl eq_refl))) as [Hu Hdu].
+    pose proof (coc_spec s n u IHs Hu ltac:(lia)) as Hcu. pose proof (coc_spec s n v IHs Hv ltac:(lia)) as Hcv.
+    set (cu := coc s u) in *. set (cv := coc s v) in *.
+    destruct (H_b _ _ IHs u cu Hcu) as (_ & Hcun & Hcud). destruct (H_b _ _ IHs v cv Hcv) as (_ & Hcvn & Hcvd).
+    pose proof (vals_in _ _ _ Hcu) as Hcuv. pose proof (vals_in _ _ _ Hcv) as Hcvv.
+    assert (Hnew : newcell_ok (s_ann s) n) by (apply (newcell_ok_low _ (s_rows s)); [exact Hn|exact IAs|lia]).
+    destruct (Nat.eqb_spec cu cv) as [Heq|Hne]; cbn [negb].
+    + destruct (1 <? dim_max).
+      * apply create_inv; try assumption. lia.
+      * apply skip_inv; try assumption. lia.
+    + change (f_char F) with p. destruct (val_of cells cu <? val_of cells cv).
+      * apply merge_inv; try assumption. intro E; apply Hne; symmetry; exact E.
+      * apply merge_inv; assumption.
+  - (* dimension >= 2 *)
+    set (a := bann F (s_ann s) (S (S d)) (c_faces (cell_at n)) 0 []).
+    assert (Ha : a = bann F (s_ann s) (dim_of cells n) (c_faces (cell_at n)) 0 []) by (rewrite Hdn; reflexivity).
+    destruct (a_ds_rev a 0) as [|[k x] tl] eqn:Eds.
+    + assert (Hnew : newcell_ok (s_ann s) n).
+      { intros j. pose proof (bann_eqm (s_ann s) (dim_of cells n) (c_faces (cell_at n)) 0 [] j) as HB.
+        rewrite <- Ha, vget_nil in HB. unfold vget in HB at 1. rewrite (a_ds_rev_nil a 0 Eds) in HB.
+        apply eqm_sym in HB. unfold eqm in HB. rewrite Z.sub_0_r, Z.add_0_l in HB. exact HB. }
+      destruct (Z.of_nat (S (S d)) <? dim_max).
+      * apply create_inv; try assumption. lia.
+      * apply skip_inv; try assumption. lia.
+    + destruct (A_destroy (s_ann s) (s_rows s) n a k x tl Hn IAs Ha Eds) as (IA' & Hk & Hdk & Hx).
+      destruct (inv_of_spec x Hx) as [_ Hinz].
+      cbn [kill_loop]. change (f_char F) with p. change (f_one F) with 1.
+      destruct (Z.eqb_spec p 1) as [E1|_]; [lia|].
+      change (f_inv F x p) with (inv_of x, p). cbv beta iota.
+      destruct (Z.eqb_spec (inv_of x) 0) as [E0|_]; [contradiction|].
+      rewrite Z.div_same by lia. rewrite kill_loop_one.
+      change (negb (1 =? 1) && (Z.of_nat (S (S d)) <? dim_max)) with false. cbv beta iota.
+      constructor; cbn [s_ann s_rows s_comp s_pairs destroy].
+      * exact IA'.
+      * apply H_mono; [lia|exact IHs].
+      * pose proof (A_ch _ _ _ IAs) as Hch.
+        apply (P_add _ (s_rows s) (s_comp s)); try assumption.
+        -- intros k' H. left. apply (in_rows_without_inv k k' (s_rows s) Hch H).
+        -- intros k' H; left; exact H.
+        -- apply (A_rows _ _ _ IAs k Hk).
+        -- lia.
+        -- intro H. destruct (P_keys _ _ _ _ IPs k H) as (_ & Hr & _). contradiction.
+        -- intro H. destruct (in_rows_without_inv k k (s_rows s) Hch H) as [_ Hkk]. apply Hkk. reflexivity.
+        -- intro H. apply in_map_iff in H. destruct H as [[v0 c0] [E H]]. cbn [snd] in E. subst c0.
+           destruct (H_b _ _ IHs v0 k H) as (_ & _ & Hd0). destruct (A_rows _ _ _ IAs k Hk). lia.
+        -- intro H. destruct (in_rows_without_inv k n (s_rows s) Hch H) as [H1 _]. apply (not_n_in_rows _ _ _ IAs H1).
+        -- apply (not_n_in_vals _ _ IHs).
+Qed.
+
+
+(* ------------------------------------------------------------------ every prefix of the filtration *)
+Lemma Inv0 : Inv st0 0.
+Proof.
+  constructor; cbn [st0 s_ann s_rows s_comp s_pairs].
+  - constructor; cbn [map].
+    + reflexivity.
+    + intros k [].
+    + constructor.
+    + intros r [].
+    + intros t j. destruct t; cbn [nth]; rewrite vget_nil; lia.
+    + intros t j H. destruct t; cbn [nth] in H; rewrite vget_nil in H; contradiction.
+    + intros t j Ht. lia.
+  - constructor; cbn [map].
+    + intros v c [].
+    + constructor.
+    + intros k Hk. lia.
+  - constructor; cbn [map pair_keys flat_map].
+    + intros x [].
+    + constructor.
+    + intros k [].
+Qed.
+
+Lemma run_inv pre : forall suf, cells = pre ++ suf -> Inv (run F cells dim_max m pre) (length pre).
+Proof.
+  unfold run. induction pre as [|c pre IH] using rev_ind; intros suf H.
+  - exact Inv0.
+  - rewrite fold_left_app. cbn [fold_left]. rewrite app_length. cbn [length]. rewrite Nat.add_1_r.
+    rewrite <- app_assoc in H. cbn [app] in H.
+    assert (Hc : c = cell_at (length pre)).
+    { unfold cell_at. rewrite H. rewrite app_nth2 by lia. rewrite Nat.sub_diag. reflexivity. }
+    rewrite Hc. apply step_inv; [|apply (IH (c :: suf)); exact H].
+    rewrite H. rewrite app_length. cbn [length]. lia.
+Qed.
+
+Definition final_pairs (s : st) : list pair := s_pairs s ++ essential F s.
+
+Lemma pair_keys_app a b : pair_keys (a ++ b) = pair_keys a ++ pair_keys b.
+Proof. unfold pair_keys. apply flat_map_app. Qed.
+Lemma pair_keys_inf {A} (f : A -> nat) (g : A -> Z) (l : list A) : pair_keys (map (fun v => (f v, None, g v)) l) = map f l.
+Proof. induction l as [|x l IH]; cbn; [reflexivity|]. f_equal. exact IH. Qed.
+Lemma NoDup_app2 {A} (l1 l2 : list A) : NoDup l1 -> NoDup l2 -> (forall x, In x l1 -> ~ In x l2) -> NoDup (l1 ++ l2).
+Proof.
+  induction l1 as [|y l1 IH]; intros H1 H2 Hd; cbn [app]; [exact H2|].
+  inversion H1; subst. constructor.
+  - intro H. apply in_app_or in H. destruct H as [H|H]; [contradiction|]. apply (Hd y); [left; reflexivity|exact H].
+  - apply IH; try assumption. intros x Hx. apply Hd. right. exact Hx.
+Qed.
+Lemma NoDup_map_filter {A B} (f : A -> B) (g : A -> bool) (l : list A) : NoDup (map f l) -> NoDup (map f (filter g l)).
+Proof.
+  induction l as [|x l IH]; intros H; cbn [filter map]; [constructor|]. cbn [map] in H. inversion H; subst.
+  destruct (g x); [|apply IH; assumption]. cbn [map]. constructor; [|apply IH; assumption].
+  intro Hin. apply H2. apply in_map_iff in Hin. destruct Hin as [y [E Hy]]. apply filter_In in Hy. rewrite <- E. apply in_map. apply Hy.
+Qed.
+
+(* each simplex is paired at most once; births precede deaths; deaths are one dimension higher *)
+Theorem final_once s n : Inv s n -> NoDup (pair_keys (final_pairs s)).
+Proof.
+  intros [IAs IHs IPs]. unfold final_pairs, essential. rewrite !pair_keys_app.
+  rewrite (pair_keys_inf (fun vc : nat * nat => fst vc) (fun _ => f_char F)).
+  rewrite (pair_keys_inf (fun r : nat * Z => fst r) (fun r => snd r)).
+  assert (Hlive : forall x, In x (map fst (filter (fun vc : nat * nat => (fst vc =? snd vc)%nat) (s_comp s))) ->
+                  In x (map snd (s_comp s)) /\ dim_of cells x = 0%nat).
+  { intros x Hx. apply in_map_iff in Hx. destruct Hx as [[v c] [E Hvc]]. cbn [fst] in E. subst v.
+    apply filter_In in Hvc. destruct Hvc as [Hvc Heq]. cbn [fst snd] in Heq. apply Nat.eqb_eq in Heq. subst c.
+    split; [apply (vals_in _ _ _ Hvc)|]. apply (H_b _ _ IHs x x Hvc). }
+  apply NoDup_app2; [apply (P_nd _ _ _ _ IPs)| |].
+  - apply NoDup_app2; [apply NoDup_map_filter; apply (H_nd _ _ IHs)|apply (A_nd _ _ _ IAs)|].
+    intros x Hx Hr. destruct (Hlive x Hx) as [_ Hd]. destruct (A_rows _ _ _ IAs x Hr). lia.
+  - intros x Hx Hin. destruct (P_keys _ _ _ _ IPs x Hx) as (_ & Hr & Hc). apply in_app_or in Hin. destruct Hin as [Hin|Hin].
+    + apply Hc. apply Hlive. exact Hin.
+    + apply Hr. exact Hin.
+Qed.
+
+Theorem final_order s n : Inv s n -> forall x, In x (final_pairs s) ->
+  match p_death x with
+  | Some d => (p_birth x < d)%nat /\ (d < n)%nat /\ dim_of cells d = S (dim_of cells (p_birth x))
+  | None => (p_birth x < n)%nat
+  end /\ snd x = p.
+Proof.
+  intros [IAs IHs IPs] x Hx. unfold final_pairs, essential in Hx. apply in_app_or in Hx. destruct Hx as [Hx|Hx].
+  - destruct (P_fin _ _ _ _ IPs x Hx) as (d & -> & A & B & C & D). repeat split; assumption.
+  - apply in_app_or in Hx. destruct Hx as [Hx|Hx]; apply in_map_iff in Hx.
+    + destruct Hx as [[v c] [<- Hvc]]. apply filter_In in Hvc. destruct Hvc as [Hvc _]. cbn. split; [|reflexivity].
+      apply (H_b _ _ IHs v c Hvc).
+    + destruct Hx as [r [<- Hr]]. cbn. split; [|apply (A_ch _ _ _ IAs r Hr)].
+      apply (A_rows _ _ _ IAs (fst r)). apply in_map. exact Hr.
+Qed.
+
+(* every coordinate of the annotation matrix is a cocycle: the annotation of the boundary of every simplex of the current
+   complex is null *)
+Theorem cocycle_inv s n : Inv s n -> forall t j, (t < n)%nat ->
+  vget (bann F (s_ann s) (dim_of cells t) (c_faces (cell_at t)) 0 []) j = 0.
+Proof.
+  intros [IAs _ _] t j Ht. apply eqm_0_small.
+  - eapply eqm_trans; [apply bann_eqm|]. rewrite vget_nil, Z.add_0_l. unfold eqm. rewrite Z.sub_0_r. apply (A_coc _ _ _ IAs t j Ht).
+  - apply bann_range. intros j'. rewrite vget_nil. lia.
+Qed.
+
+(* annotations are supported on live classes of the dimension of their simplex, with coefficients in [0,p) *)
+Theorem support_inv s n : Inv s n -> forall t j, vget (nth t (s_ann s) []) j <> 0 ->
+  In j (map fst (s_rows s)) /\ dim_of cells j = dim_of cells t /\ 0 < vget (nth t (s_ann s) []) j < p.
+Proof.
+  intros [IAs _ _] t j H. destruct (A_supp _ _ _ IAs t j H). pose proof (A_range _ _ _ IAs t j). repeat split; try assumption; lia.
+Qed.
+
 End Zp.
